@@ -8,6 +8,8 @@ pub fn expand(input: &DeriveInput, trait_name: &str) -> TokenStream {
     let trait_ident = format_ident!("{trait_name}");
     let method_name = trait_name.trim_end_matches("Assign").to_lowercase();
     let method_ident = format_ident!("{method_name}_assign");
+    let method = quote! { derive_more::core::ops::#trait_ident::#method_ident };
+    let self_ref = quote! { &mut };
     let input_type = &input.ident;
 
     let generics = add_extra_ty_param_bound_op(&input.generics, &trait_ident);
@@ -16,10 +18,10 @@ pub fn expand(input: &DeriveInput, trait_name: &str) -> TokenStream {
     let exprs = match input.data {
         Data::Struct(ref data_struct) => match data_struct.fields {
             Fields::Unnamed(ref fields) => {
-                tuple_exprs(&unnamed_to_vec(fields), &method_ident)
+                tuple_exprs(&unnamed_to_vec(fields), &method, &self_ref)
             }
             Fields::Named(ref fields) => {
-                struct_exprs(&named_to_vec(fields), &method_ident)
+                struct_exprs(&named_to_vec(fields), &method, &self_ref)
             }
             _ => panic!("Unit structs cannot use derive({trait_name})"),
         },
